@@ -87,6 +87,22 @@ def run_pairs(prop, tier, seed, work, res, defs, pairs, per_pair, two_hop=False,
     res.tlc_states += st.get("distinct", 0)
     res.tlc_transitions += st.get("generated", 0)
     scen = []
+    if prop == "C03":
+        # before anything else: a rejected definition that nests the readers' leaf types (at lower ids than its unsupported
+        # part); the first use of every reader that nests them comes afterwards and must find them intact
+        # (mid-level readers first: types that nest further structs and are themselves nested, by pointer, in outer readers)
+        def nests_struct(x):
+            return any("struct" in U.type_sig(f["t"]) or f["t"]["k"] == "struct" for f in defs[x]["fields"])
+        rd = [x for x in sorted(defs, key=lambda n: (len(n), n)) if x.startswith("T") and x[1:].isdigit()]
+        leafs = [x for x in rd if nests_struct(x)][:30] + [x for x in rd if not nests_struct(x)][:30]
+        bad = {"id": 2, "key": "2", "req": "default", "t": {"k": "i32", "ptr": False, "gotype": "uint32"}, "nocopy": False,
+               "name": list(b"F2"), "rawtag": 'frugal:"2,default"', "opaque": True}
+        defs["ZBadInner"] = U.struct([U.field(1, "default", U.T("i32")), bad])
+        defs["ZBadShare"] = U.struct([U.field(j + 1, "optional", U.ST(x, True)) for j, x in enumerate(leafs[:60])] + [U.field(9999, "default", U.ST("ZBadInner", True))])
+        defs["ZBadInner"]["invalid"] = True
+        defs["ZBadShare"]["invalid"] = True
+        scen.append({"sid": "C03-rejected-first", "prop": prop, "vals": [], "tags": ["rejected-first"], "dkey": "rejected-first",
+                     "steps": [{"op": "reject", "ty": "ZBadShare", "entry": e, "arg": "ptr", "class": "interlude", "repeat": 1} for e in ("decode", "encode")]})
     for cid, (w, t, label, v, n) in plans.items():
         m = msgs[cid][0]
         dest = ["fresh", "zero", "val"][n % 3]
@@ -136,6 +152,21 @@ def run(prop, tier, seed, work):
                 if prop == "C11":
                     pairs2 = [p for p in pairs2 if not p[2].startswith(("added-required", "all-required"))]
                 batches.append(run_pairs(prop, tier, seed + 100 * r, work, res, defs2, pairs2, 12, two_hop=(prop == "C11"), name="pairs%d" % r))
+    if prop == "C03":
+        # well-formed messages nested deeply but inside the conventional limit: accepted, whatever produces the nesting
+        import checks_depth
+        dd = checks_depth.depth_universe()
+        dscen = []
+        for ty, pat in (("Re", "struct"), ("Re", "list"), ("Re", "mapval"), ("ReK", "mapkey"), ("ReU", "struct"), ("ReU", "ustruct"), ("Re", "ulist")):
+            sid = "C03-deep-%s-%s" % (ty, pat)
+            dscen.append({"sid": sid, "prop": prop, "vals": [], "tags": ["deep-legal", pat], "dkey": sid,
+                          "steps": [{"op": "deep", "ty": ty, "pattern": pat, "depths": list(range(14, 49, 2)) + [47, 48], "bisect": False}]})
+        for (pfx, pat) in (("struct", "list"), ("list", "struct"), ("mapval", "list"), ("struct", "mapval")):
+            for pre in (3, 10, 20):
+                sid = "C03-deep-mix-%s*%d+%s" % (pfx, pre, pat)
+                dscen.append({"sid": sid, "prop": prop, "vals": [], "tags": ["deep-legal", "mix"], "dkey": sid,
+                              "steps": [{"op": "deep", "ty": "Re", "prefix": pfx, "pre": pre, "pattern": pat, "depths": [5, 10, 15, 20, 25], "bisect": False}]})
+        batches.append(Batch("deep-legal", dd, dscen))
     if prop == "C09":
         batches.extend(required_batches(prop, tier, seed, work, res, quick))
     if prop == "C10":
